@@ -81,3 +81,101 @@ Print Assumptions C20_text_constants.
 Theorem C20_resource_table : cb_resource_table = l0_resource_table.
 Proof. exact resource_table_ok. Qed.
 Print Assumptions C20_resource_table.
+
+(* ---- the printer: for EVERY well-formed AST the printed text is inside the conservative Safari
+   subset ('.', '*' '+' '?' only after an atom or group, character classes, one level of groups,
+   ^ only first, $ only last, backslash only before a metacharacter, never the empty text) *)
+Theorem C20_cb_printer_subset : forall r, regex_wf r = true -> safari_ok (print_regex r) = true.
+Proof. exact printer_subset. Qed.
+Print Assumptions C20_cb_printer_subset.
+
+(* every literal metacharacter is printed escaped, every other literal as itself *)
+Theorem C20_cb_printer_escapes : forall c,
+  (In c safari_meta -> c <> STAR -> print_atom (ALit c) = [BSL; c]) /\
+  (~ In c safari_meta -> print_atom (ALit c) = [c]).
+Proof. exact printer_escapes. Qed.
+Print Assumptions C20_cb_printer_escapes.
+
+(* the AST view is the converter's text pipeline: TRAILING_SEPARATOR, SPECIAL_CHARS -> \$1, \* -> .* *)
+Theorem C20_cb_pipeline_text : forall p h,
+  flat_map print_item (part_items p) = fix_wildcards (escape_special (strip_trailing_caret p)) /\
+  flat_map print_item (lits h) = escape_special h.
+Proof. intros p h. exact (conj (part_items_text p) (lits_text h)). Qed.
+Print Assumptions C20_cb_pipeline_text.
+
+(* ---- every url-filter emitted by into_content_blocking is in the subset.  Hypotheses: the parser
+   invariant "no '*' inside the hostname" (host_ok) and the carve-out of the finding class
+   "pattern is only a separator" (empty_filter_class), refuted below. *)
+Theorem C20_cb_filter_subset : forall norm idna nets coss rules used r,
+  into_content_blocking norm idna true nets coss = Ok (Some (rules, used)) ->
+  Forall (fun nf => host_ok nf = true /\ empty_filter_class nf = false) nets ->
+  In r rules -> safari_ok (print_regex (r_url r)) = true.
+Proof. exact into_cb_subset. Qed.
+Print Assumptions C20_cb_filter_subset.
+
+(* finding: `*^` (as parsed: mask 466943, filter "^") is exported with the empty url-filter *)
+Theorem C20_cb_filter_subset_refuted : forall norm,
+  host_ok sep_only_rule = true /\ lost_scheme_class sep_only_rule = false /\ empty_filter_class sep_only_rule = true /\
+  exists r, convert_network norm sep_only_rule = Ok (COk [r]) /\ print_regex (r_url r) = [] /\
+            safari_ok (print_regex (r_url r)) = false.
+Proof. exact cb_subset_refuted. Qed.
+Print Assumptions C20_cb_filter_subset_refuted.
+
+(* non-ASCII patterns and hostnames never produce output *)
+Theorem C20_cb_non_ascii_rejected : forall norm nf rules,
+  convert_network norm nf = Ok (COk rules) ->
+  (forall p, nf_filter nf = FSimple p -> all_ascii p = true) /\
+  (forall h, nf_hostname nf = Some h -> all_ascii h = true).
+Proof. exact convert_network_rejects_non_ascii. Qed.
+Print Assumptions C20_cb_non_ascii_rejected.
+
+(* ---- no panic.  Hypotheses are parser invariants: debug rules carry their raw line; a domain
+   option implies a '$' in the raw line (dollar_ok, justified by C20_cb_reparse_dollar); cosmetic
+   raw lines contain '#' and have a non-empty selector list (cos_ok); and the carve-out of the
+   finding class "all scheme bits lost" (lost_scheme_class), refuted below. *)
+Theorem C20_cb_total : forall norm idna debug nets coss,
+  Forall (fun nf => nf_raw nf <> None /\ lost_scheme_class nf = false /\ dollar_ok nf = true) nets ->
+  Forall (fun cf => cf_raw cf <> None /\ cos_ok cf = true) coss ->
+  is_ok (into_content_blocking norm idna debug nets coss) = true.
+Proof. exact into_cb_total_concrete. Qed.
+Print Assumptions C20_cb_total.
+
+(* the parser takes its options after the LAST '$', the converter unwraps the FIRST '$': whenever
+   the parser saw options, the converter's unwrap succeeds *)
+Theorem C20_cb_reparse_dollar : forall line opts,
+  parser_options line = Some opts -> memN DOLLAR line = true /\ find_byte DOLLAR line <> None.
+Proof. exact parser_options_dollar. Qed.
+Print Assumptions C20_cb_reparse_dollar.
+
+(* finding: `|ws://$~websocket` (as parsed: mask 198399, empty filter, no hostname) panics *)
+Theorem C20_cb_total_refuted : forall norm,
+  dollar_ok ws_neg_rule = true /\ host_ok ws_neg_rule = true /\ lost_scheme_class ws_neg_rule = true /\
+  convert_network norm ws_neg_rule = Panic UNREACHABLE /\
+  into_content_blocking norm norm true [ws_neg_rule] [] = Panic UNREACHABLE.
+Proof. exact cb_total_refuted. Qed.
+Print Assumptions C20_cb_total_refuted.
+
+(* ---- inclusion for plain patterns (no '*', no '^').
+   (a) no hostname: p, |p, p|, |p| — whenever the pattern occurs in the URL (at the start / end when
+   anchored), every emitted rule's url-filter matches the URL. *)
+Theorem C20_cb_plain_inclusion_pattern : forall norm nf rules p url r,
+  convert_network norm nf = Ok (COk rules) -> In r rules ->
+  nf_hostname nf = None -> nf_filter nf = FSimple p -> plain p ->
+  (has (nf_mask nf) M_IS_LEFT_ANCHOR = true \/ has (nf_mask nf) (N.lor M_FROM_HTTP M_FROM_HTTPS) = true) ->
+  plain_match (has (nf_mask nf) M_IS_LEFT_ANCHOR) (has (nf_mask nf) M_IS_RIGHT_ANCHOR) p url ->
+  ast_matches (r_url r) url.
+Proof. exact convert_network_plain_pattern. Qed.
+Print Assumptions C20_cb_plain_inclusion_pattern.
+
+(* (b) ||h and ||h/path.  Partial: only URLs of the shape scheme://[labels.]h path with non-empty
+   labels and no credentials (user:pw@h is the known finding C20_userinfo_url); rules without
+   pattern and hostname (exported as ^https?://) are not covered (known finding
+   C20_patternless_rule_misses_websocket_urls). *)
+Theorem C20_cb_plain_inclusion_host_partial : forall norm nf rules h p url r,
+  convert_network norm nf = Ok (COk rules) -> In r rules ->
+  nf_hostname nf = Some h -> has (nf_mask nf) M_IS_HOSTNAME_REGEX = false ->
+  ((nf_filter nf = FEmpty /\ p = []) \/ (nf_filter nf = FSimple p /\ plain p)) ->
+  host_path_match (match nf_filter nf with FEmpty => false | _ => has (nf_mask nf) M_IS_RIGHT_ANCHOR end) h p url ->
+  ast_matches (r_url r) url.
+Proof. exact convert_network_plain_host. Qed.
+Print Assumptions C20_cb_plain_inclusion_host_partial.
